@@ -98,6 +98,17 @@ fn main() {
         .cloned()
         .unwrap_or(Value::Null);
 
+    // how many executions of this file in this directory came before this one
+    let earlier = std::fs::read_dir(&trace_dir)
+        .map(|rd| {
+            rd.flatten()
+                .filter(|e| e.file_name().to_string_lossy().ends_with(".start.json"))
+                .filter_map(|e| std::fs::read(e.path()).ok())
+                .filter_map(|b| serde_json::from_slice::<Value>(&b).ok())
+                .filter(|v| v.get("exe").and_then(|x| x.as_str()) == Some(exe.as_str()) && v.get("cwd").and_then(|x| x.as_str()) == Some(cwd.as_str()))
+                .count()
+        })
+        .unwrap_or(0);
     let barrier = beh.get("barrier").cloned();
     write_atomic(
         &trace_dir,
@@ -151,7 +162,8 @@ fn main() {
         let prefix = format!("barrier-{}-", bkey);
         let _ = std::fs::write(trace_dir.join(format!("{}{}", prefix, id)), b"");
         let t0 = Instant::now();
-        loop {
+        // a time-out of 0: announce the start only
+        while !timeout.is_zero() {
             let count = std::fs::read_dir(&trace_dir)
                 .map(|rd| {
                     rd.flatten()
@@ -185,8 +197,16 @@ fn main() {
             std::thread::sleep(Duration::from_millis(ms));
         }
     }
-    let out_steps = beh.get("out").and_then(|x| x.as_array()).cloned().unwrap_or_default();
-    let err_steps = beh.get("err").and_then(|x| x.as_array()).cloned().unwrap_or_default();
+    let pick_steps = |first: &str, later: &str| {
+        let l = beh.get(later).and_then(|x| x.as_array()).cloned().unwrap_or_default();
+        if earlier > 0 && !l.is_empty() {
+            l
+        } else {
+            beh.get(first).and_then(|x| x.as_array()).cloned().unwrap_or_default()
+        }
+    };
+    let out_steps = pick_steps("out", "out_later");
+    let err_steps = pick_steps("err", "err_later");
     if !out_steps.is_empty() || !err_steps.is_empty() {
         let h1 = std::thread::spawn(move || run_script(out_steps, Box::new(std::io::stdout())));
         let h2 = std::thread::spawn(move || run_script(err_steps, Box::new(std::io::stderr())));
